@@ -46,6 +46,14 @@ def gen_case(rng, tier, idx):
         cfg["simulation"]["markets"].append("S%d" % i)
     spots = list(cfg["simulation"]["markets"])
     comps = rng.sample(spots, rng.randint(2, n))
+    if idx % 11 == 5:
+        # share counts that each fit a machine word while their total does not
+        comps = list(spots)
+        for c in comps:
+            cfg[c]["outstandingShares"] = rng.choice([4 * 10 ** 18, 5 * 10 ** 18, 6 * 10 ** 18])
+        if len(comps) == 2:
+            cfg[comps[0]]["outstandingShares"] = 5 * 10 ** 18
+            cfg[comps[1]]["outstandingShares"] = 6 * 10 ** 18
     cfg["IDX"] = {"class": "IndexMarket", "tickSize": rng.choice([1.0, 0.5, 0.01]), "markets": comps,
                   "outstandingShares": 1000, "marketPrice": rng.choice([100.0, 500.0])}
     # an index market has to be declared after its components (its setup reads their outstanding shares);
@@ -66,7 +74,7 @@ def gen_case(rng, tier, idx):
     cfg["A"] = {"class": "ScriptAgent", "numAgents": rng.randint(3, 6), "markets": mk, "cashAmount": 100000,
                 "assetVolume": 50, "program": prog}
     cfg["simulation"]["agents"].append("A")
-    arb = rng.random() < 0.25
+    arb = rng.random() < 0.25 and idx % 11 != 5
     if arb:
         # the built-in index arbitrageur watches the index (it needs equal shares); with full access it trades, with
         # access to only some of the components its threshold is out of reach so that it only watches
